@@ -6,7 +6,7 @@ from __future__ import annotations
 
 import ast
 
-from ..alg import Lin, Q
+from ..alg import is_zero, Lin, Q
 from ..repo import AnalysisError, dotted, norm_text, walk_no_nested, FuncInfo
 from ..xeval import Interp, XObj, Opaque, Sink, Uninterpretable, XRaise
 from types import SimpleNamespace
@@ -143,6 +143,25 @@ class SVec:
         return " + ".join(f"{c}*{n}[{r}]" for (n, r), c in self.lin.t.items()) or "0"
 
 
+class BVec(SVec):
+    """a non-empty dof-sized vector (bounds)"""
+
+    @staticmethod
+    def atom(name, rows=":"):
+        return BVec(Lin({(name, rows): Q(1)}), rows)
+
+    def __len__(self):
+        return 7
+
+    @property
+    def size(self):
+        return 7
+
+    def __getitem__(self, key):
+        v = SVec.__getitem__(self, key)
+        return BVec(v.lin, v.rows)
+
+
 class Solved(SVec):
     def __init__(self, A, b):
         super().__init__(Lin({(f"solve({A!r}; {b!r})", A.rows): Q(1)}), A.rows)
@@ -174,10 +193,13 @@ def elimination_rule(ctx):
     I = Interp(repo, extra_builtins={"MPI_SIZE": 1, "Tic": lambda *a, **k: Sink()})
     solved = []
 
+    extra_ops = []
+
     def hook(fn, args, kwargs):
         if isinstance(fn, FuncInfo) and fn.name == "_Solve_Axb":
             s = Solved(args[2], args[3])
             solved.append(s)
+            extra_ops.append(tuple(args[4:7]))
             return s
         return NotImplemented
 
@@ -187,12 +209,33 @@ def elimination_rule(ctx):
     except (AnalysisError,) as e:
         r.fail(f.qualname, "shape", f.file, f.lineno, "__Solver_1", f"the reduced solve cannot be read as a block elimination: {e}")
         return
+    # every dof-sized operand of the reduced solve lives on the unknown dofs: initial guess and, when the backend is
+    # the bounded least-squares one, the bounds (given by Get_lb_ub on every dof)
+    r.instance(fn=f.qualname)
+    solved_main = list(solved)
+    simu_b = SimpleNamespace(**vars(simu))
+    simu_b.Get_lb_ub = lambda pt: (BVec.atom("lb"), BVec.atom("ub"))
+    simu_b._Solver_Apply_Dirichlet = lambda pt, bb, res: (A, SVec.atom("xd"))
+    simu_b._Solver_Apply_Neumann = lambda pt: SVec.atom("b")
+    n0 = len(extra_ops)
+    try:
+        I.call_function(f, [simu_b, Opaque("problemType")])
+        ops = extra_ops[n0] if len(extra_ops) > n0 else None
+    except (AnalysisError,) as e:
+        ops = None
+        r.fail(f.qualname, "bounds-shape", f.file, f.lineno, "__Solver_1", f"with bounds on every dof the reduced solve cannot be read: {e}")
+    if ops is not None:
+        badops = [nm for nm, v in zip(("x0", "lb", "ub"), ops) if not (isinstance(v, SVec) and v.rows == "U")]
+        if badops:
+            r.fail(f.qualname, "operand-not-reduced:" + ",".join(badops), f.file, f.lineno, "__Solver_1", f"the reduced system A[U,U] is solved with {', '.join(badops)} still given on every dof: the bounded least-squares backend receives bounds whose size is not that of the reduced system as soon as one dof is constrained")
+        else:
+            r.ok("x0, lb, ub are restricted to the unknown dofs before the reduced solve")
     xs = res[0] if isinstance(res, tuple) else res
     problems = []
-    if len(solved) != 1:
-        problems.append(f"{len(solved)} linear solves")
+    if len(solved_main) != 1:
+        problems.append(f"{len(solved_main)} linear solves")
     else:
-        s = solved[0]
+        s = solved_main[0]
         if not (isinstance(s.A, SMat) and (s.A.name, s.A.rows, s.A.cols) == ("A", "U", "U")):
             problems.append(f"system matrix is {s.A!r}, expected A[U,U]")
         want = SVec.atom("b")[U] - (A[U, K] @ SVec.atom("xd")[K])
@@ -523,31 +566,66 @@ def dispatch_rule(ctx):
 
 
 def incremental_rule(ctx):
+    """R4.6: on the Newton path the values handed to the elimination are increments.  A dof entered several times
+    holds the SUM of its entered values (the duplicate-summing constructor downstream), so the increment of dof d is
+    (sum of the values entered for d) - current[d]: the current solution is removed once per dof, not once per entry.
+    _Solver_Apply_Dirichlet is interpreted on the raw list [3, 5, 3] with symbolic values and a symbolic current
+    solution; the captured values are summed per dof as the COO constructor does."""
     repo = ctx.repo
-    r = ctx.rule("R4.6", "Newton-incremental Dirichlet values: when isNonLinear the prescribed values are reduced by the current solution before elimination", min_instances=1)
-    f = repo.cls(SIMU).methods["_Solver_Apply_Dirichlet"]
-    r.instance(fn=f.qualname)
-    from ..flow import Locals as _L
+    r = ctx.rule("R4.6", "Newton-incremental Dirichlet values: per dof, (sum of the entered values) - current solution, also when a dof is entered several times; the linear path passes the values through", min_instances=2)
+    ci = repo.cls(SIMU)
+    f = ci.methods["_Solver_Apply_Dirichlet"]
+    from ..alg import Poly
+    from ..xarray import XArray
+    from ..xeval import XObj
 
-    L = _L(f.node)
-    idx_sub = idx_call = None
-    callarg = None
-    for i, st in enumerate(f.node.body):
-        for c in ast.walk(st):
-            if isinstance(c, ast.Call) and (dotted(c.func) or "").endswith("__Solver_Get_Dirichlet_A_x") and idx_call is None:
-                idx_call = i
-                callarg = c.args[-1] if c.args else None
-    for i, st in enumerate(f.node.body):
-        if isinstance(st, ast.If) and "isNonLinear" in norm_text(st.test):
-            for s_ in st.body:
-                if isinstance(s_, ast.AugAssign) and isinstance(s_.op, ast.Sub) and isinstance(s_.target, ast.Name) and isinstance(callarg, ast.Name) and s_.target.id == callarg.id:
-                    vt = L.text(s_.value)
-                    if "_Solver_Get_Newton_Raphson_current_solution()[" in vt and "Bc_dofs_Dirichlet(" in vt:
-                        idx_sub = i
-    if idx_sub is not None and idx_call is not None and idx_sub < idx_call:
-        r.ok("dofsValues -= current[dofs] precedes the elimination on the non-linear path")
-    else:
-        r.fail(f.qualname, "incremental", f.file, f.lineno, "_Solver_Apply_Dirichlet", "on the non-linear path the Dirichlet values are not reduced by the current Newton solution before being eliminated")
+    elliptic = None
+    for nonlinear in (True, False):
+        r.instance(fn=f.qualname)
+        dofs = XArray((3,), [3, 5, 3])
+        vals = XArray((3,), [Poly.var("a"), Poly.var("b"), Poly.var("c")])
+        cur = XArray((7,), [Poly.var(f"u{i}") for i in range(7)])
+        cap = {}
+        I = Interp(repo, extra_builtins={"Tic": lambda *a, **k: Sink()})
+        algo_cls = repo.cls(f"{SOLV}.AlgoType")
+        from ..xeval import EnumVal
+
+        mem = repo.enum_members(algo_cls.qualname)
+        obj = XObj(ci, {
+            "algo": EnumVal(algo_cls, "elliptic", mem["elliptic"]),
+            "Bc_dofs_Dirichlet": lambda pt=None: dofs,
+            "Bc_values_Dirichlet": lambda pt=None: XArray(vals.shape, list(vals.data)),
+            "Get_K_C_M_F": lambda pt=None: (Opaque("K"), Opaque("C"), Opaque("M"), Opaque("F")),
+            "isNonLinear": nonlinear,
+            "_Solver_Get_Newton_Raphson_current_solution": lambda: cur,
+            "_verbosity": False,
+        })
+
+        def hook(fn, args, kwargs):
+            if isinstance(getattr(fn, "finfo", None), FuncInfo) and fn.finfo.name.endswith("__Solver_Get_Dirichlet_A_x"):
+                cap["values"] = args[-1] if not kwargs.get("dofsValues") else kwargs["dofsValues"]
+                return (Opaque("A"), Opaque("x"))
+            return NotImplemented
+
+        I.call_hook = hook
+        I.call_function(f, [Opaque("problemType"), Opaque("b"), Opaque("resolution")], self_obj=obj)
+        got = cap.get("values")
+        key = "incremental" if nonlinear else "linear-values"
+        if not isinstance(got, XArray) or got.shape != (3,):
+            r.fail(f.qualname, key, f.file, f.lineno, "_Solver_Apply_Dirichlet", f"the values handed to the elimination are {got!r}")
+            continue
+        per = {}
+        for d, v in zip(dofs.data, got.data):
+            per[int(d)] = per.get(int(d), 0) + v
+        want = {3: Poly.var("a") + Poly.var("c"), 5: Poly.var("b")}
+        if nonlinear:
+            want = {d: w - Poly.var(f"u{d}") for d, w in want.items()}
+        bad = [d for d in want if not is_zero(per[d] - want[d])]
+        if bad:
+            d = bad[0]
+            r.fail(f.qualname, key, f.file, f.lineno, "_Solver_Apply_Dirichlet", f"dof entered {'twice' if d == 3 else 'once'}: after the duplicate-summing constructor it receives {per[d]!r}, expected {want[d]!r}" + (" (the current Newton solution is removed once per ENTRY: the iterate oscillates and Newton does not converge)" if nonlinear and d == 3 else ""))
+        else:
+            r.ok(f"{'Newton' if nonlinear else 'linear'} path: per-dof value == {'sum(entered) - current' if nonlinear else 'sum(entered)'}")
 
 
 def run(ctx):
